@@ -64,9 +64,11 @@ func writeTempResolvConf(tmpPath, dns string) error {
 	fmt.Fprintln(tmp, "")
 	for s.Scan() {
 		line := strings.TrimSpace(s.Text())
-		if line == "" ||
-			strings.HasPrefix(line, "#") ||
-			strings.HasPrefix(line, "nameserver ") {
+		if line == "" || strings.HasPrefix(line, "#") {
+			continue
+		}
+		// resolv.conf keywords may be followed by spaces or tabs.
+		if fields := strings.Fields(line); fields[0] == "nameserver" {
 			continue
 		}
 		fmt.Fprintln(tmp, line)
